@@ -213,12 +213,7 @@ theorem nextRow_none_stable : ∀ (f : Nat) (it it' : It) (c c' : Ctx), nextRow 
           | startLoop ls => simp only [step] at hs; split at hs <;> cases hs
           | startInner ls => simp [step] at hs
           | inner i3 ls => simp only [step] at hs; split at hs <;> cases hs
-          | endInner ls =>
-            simp only [step] at hs
-            split at hs
-            · cases hs
-            · split at hs <;> cases hs
-            · cases hs
+          | endInner ls => simp only [step] at hs; split at hs <;> cases hs
           | startWhile ws =>
             simp only [step] at hs
             split at hs
